@@ -1,7 +1,7 @@
 (* Props_C13.v — property C13 (hooks run once per record, in documented order, in the operation's
    transaction): ONLY theorem statements, each closed by [exact] of a lemma of C13_Proofs*.v.
    All are about [run], the function C13_Check.check_case evaluates on what the real gorm just did. *)
-From Verif Require Import Base C13_Model C13_Check C13_Proofs C13_Proofs2 C13_Proofs3 C13_Proofs4 C13_Proofs5 C13_Proofs6 C13_Vals C13_Vals2 C13_Vals3 C13_Vals4.
+From Verif Require Import Base C13_Model C13_Check C13_Proofs C13_Proofs2 C13_Proofs3 C13_Proofs4 C13_Proofs5 C13_Proofs6 C13_Vals C13_Vals2 C13_Vals3 C13_Vals4 C13_Vals5 C13_Vals6 C13_Vals7.
 Open Scope Z_scope.
 
 (* The hook log of every operation (Create, Save, Update(s), UpdateColumn(s), Delete, Find, First), for
@@ -98,6 +98,25 @@ Theorem c13_create_vals_ok : forall o, op_ok o -> create_shaped o -> vals_dom o 
   vals_ok o (hooks_of (s_tr (run o))) (s_tbl (run o)) = true.
 Proof. exact run_create_vals_ok. Qed.
 Print Assumptions c13_create_vals_ok.
+
+(* ... the same for the ASSOCIATION records of the operation (belongs-to / has-many values saved by the nested
+   creates of SaveBefore/AfterAssociations): every Boss / Kid / Pet row holds the last value one of that
+   record's own before-hooks asked for, or its original value ([full_dom]: per-record SetColumn, all records
+   of the operation told apart by their tags, the association values have no row yet) *)
+Theorem c13_create_assoc_values_stored : forall o, op_ok o -> create_shaped o -> full_dom o ->
+  s_err (run o) = [] ->
+  (forall r, In r (a_boss (o_assocs o)) -> In (TBosses, m_tag r, want o (boss_ty o) (hooks_of (s_tr (run o))) r) (s_tbl (run o)))
+  /\ (forall r, In r (a_kids (o_assocs o)) -> In (TKids, m_tag r, want o (kid_ty o) (hooks_of (s_tr (run o))) r) (s_tbl (run o)))
+  /\ (forall r, In r (a_pets (o_assocs o)) -> In (TPets, m_tag r, want o (pet_ty o) (hooks_of (s_tr (run o))) r) (s_tbl (run o))).
+Proof. exact run_create_assoc_values. Qed.
+Print Assumptions c13_create_assoc_values_stored.
+
+(* ... hence the checker's clause [vals_ok] IN FULL (own and association records) on the model's own run *)
+Theorem c13_create_vals_ok_full : forall o, op_ok o -> create_shaped o -> full_dom o ->
+  s_err (run o) = [] ->
+  vals_ok o (hooks_of (s_tr (run o))) (s_tbl (run o)) = true.
+Proof. exact run_create_vals_ok_full. Qed.
+Print Assumptions c13_create_vals_ok_full.
 
 (* END TO END, Update / Updates (payload a map keyed by column or field name, or a struct; any model type,
    Model shape and number of records, any set of SetColumn calls by BeforeSave / BeforeUpdate, any
@@ -196,4 +215,11 @@ Proof.
     + cbn. repeat constructor; cbn; intuition discriminate.
     + intros x y Hx Hy. cbn in Hx, Hy. intuition (subst; cbn; discriminate).
   - vm_compute. intuition.
+Qed.
+
+Example c13_vals_full_dom : full_dom w_vals.
+Proof.
+  split; [reflexivity|]. split.
+  - cbn. repeat constructor; cbn; intuition discriminate.
+  - repeat split; intros x Hx; reflexivity.
 Qed.
